@@ -140,14 +140,8 @@ func init() {
 			panic(pathAbort{"empty choice"})
 		}
 		v := p.fresh(nameOf(args[1]), bvSort(64), "choice")
-		p.assume(b.ULt(v, b.BV(uint64(n), 64)))
-		for k := 0; k < n-1; k++ {
-			if p.decide(b.Eq(v, b.BV(uint64(k), 64))) {
-				return k
-			}
-		}
-		p.addPC(b.Eq(v, b.BV(uint64(n-1), 64)))
-		return n - 1
+		_ = b
+		return p.chooseFree(v, n)
 	})
 	str := func(fr *frame, name string, n int, alphabet string) []value {
 		p := fr.i.path
